@@ -132,18 +132,14 @@ def alias_gate(fx):
                 obs.append(o)
                 continue
             sites += 1
-            good = None
+            good, host, hostbi = _guarding_identity_test(fx, f, bi, ids, set())
             why = "no inode-identity test (st_dev/st_ino comparison of source and destination) guards this call"
-            for idf in ids:
-                ok, w = q.gated(f, bi, "call", idf, False)
-                if ok:
-                    good = idf
-                    break
             obs.append(Ob("R-ORDER", key, good is not None, q.loc_of(t), f.path,
                           "%s of the destination is %s" % (nm.split("::")[-1],
                                                            ("control-dependent on %s(..) == false" % good) if good else why),
                           None if good else dict(identity_tests=sorted(ids), block="bb%d" % bi)))
             if good:
+                f = host     # the function in which the test guards the call (the caller, for a private helper)
                 # the 'same file' outcome must fail on every path
                 for (u, v) in ro.edge_target(f, "call", good, True):
                     obs.append(ro.region_must_fail(fx, f, v, "R-ORDER",
@@ -163,6 +159,32 @@ def alias_gate(fx):
     if sites == 0:
         obs.append(anchor_ob("R-ORDER", "no truncating open of the destination reachable from the drivers"))
     return obs
+
+
+def _guarding_identity_test(fx, f, bi, ids, seen):
+    """The identity-test function on whose `false` outcome block bi of f is control-dependent; if f is a private
+    helper, every one of its call sites must be guarded in the caller instead. Returns (test, host fn, block)."""
+    for idf in ids:
+        ok, w = q.gated(f, bi, "call", idf, False)
+        if ok:
+            return idf, f, bi
+    if f.path in seen or f.raw.get("exported") or f.raw.get("reachable"):
+        return None, None, None
+    cg = q.callgraph(fx)
+    res = None
+    n = 0
+    for c in sorted(cg.callers.get(f.path, ())):
+        g = fx.fns.get(c)
+        if g is None:
+            continue
+        for b2, t2 in g.calls():
+            if q.names(t2)[1] == f.path or f.path in (t2["fn"].get("fnvals") or []):
+                n += 1
+                r = _guarding_identity_test(fx, g, b2, ids, seen | {f.path})
+                if r[0] is None:
+                    return None, None, None
+                res = r
+    return res if (n and res) else (None, None, None)
 
 
 def destructive_confined(fx):
@@ -285,34 +307,44 @@ def walker_gate(fx):
 
 
 def special_arm_gate(fx):
-    """(a') in both Special arms remove_file is control-dependent on !no_clobber, the no_clobber branch
-    fails, and the existence predicate is lstat-based."""
+    """(a') wherever an existing destination entry is removed to make room for a special node, the removal is
+    control-dependent on !no_clobber, the no_clobber branch fails, and the existence predicate is lstat-based.
+    Anchored on the functions that directly call remove_file and are reached from both drivers' Special arms
+    (so a shared helper is followed)."""
+    import p_kinds
     obs = []
+    cg = q.callgraph(fx)
+    hosts = {}
     for w in (PF_WORKER, PB_DISPATCH):
-        f = fx.fn(w)
-        if f is None:
-            obs.append(anchor_ob("R-ORDER", w))
+        f, regs = p_kinds.op_regions(fx, w)
+        if f is None or "Special" not in regs:
+            obs.append(anchor_ob("R-ORDER", "%s Special arm" % w))
             continue
+        r = cg.reach(f.path, blocks=regs["Special"])
+        if REMOVE_FILE not in r:
+            obs.append(anchor_ob("R-ORDER", "%s Special arm reaches remove_file" % w))
+            continue
+        host = r[REMOVE_FILE][-2]    # the workspace function that calls it
+        hosts.setdefault(host, []).append(w)
+    for host, ws in sorted(hosts.items()):
+        f = fx.fn(host)
         rms = ro.performers(fx, f, REMOVE_FILE, direct_only=True)
-        if not rms:
-            obs.append(anchor_ob("R-ORDER", "%s performs remove_file" % w))
         for n, (bi, t, h) in enumerate(rms):
             ok, why = q.gated(f, bi, CONFIG, "no_clobber", False)
-            obs.append(Ob("R-ORDER", mkkey("R-ORDER", w, REMOVE_FILE, n, "gated:no_clobber=False"), ok, q.loc_of(t), w,
-                          "remove_file of an existing destination entry: %s" % why,
+            obs.append(Ob("R-ORDER", mkkey("R-ORDER", host, REMOVE_FILE, n, "gated:no_clobber=False"), ok, q.loc_of(t), host,
+                          "remove_file of an existing destination entry (%s): %s" % ("+".join(x.split("::")[-1] for x in ws), why),
                           None if ok else dict(block="bb%d" % bi)))
-            # predicate guarding the removal
-            preds = [r for r in _gates_of_block(f, bi) if r[0] == "call"]
+            preds = [r_ for r_ in _gates_of_block(f, bi) if r_[0] == "call"]
             okp = False
             whyp = "no existence predicate guards remove_file"
-            for r in preds:
-                okp, whyp = _is_lstat_probe(fx, r[1])
+            for r_ in preds:
+                okp, whyp = _is_lstat_probe(fx, r_[1])
                 if okp:
                     break
-            obs.append(Ob("R-PROBE", mkkey("R-PROBE", w, REMOVE_FILE, n, "clobber-gate-lstat"), okp, q.loc_of(t), w,
-                          "existence predicate before remove_file: %s" % whyp, None if okp else dict(preds=preds)))
+            obs.append(Ob("R-PROBE", mkkey("R-PROBE", host, REMOVE_FILE, n, "clobber-gate-lstat"), okp, q.loc_of(t), host,
+                          "existence predicate before remove_file: %s" % whyp, None if okp else dict(preds=[p_[:3] for p_ in preds])))
         for k, (u, v) in enumerate(ro.edge_target(f, CONFIG, "no_clobber", True)):
-            obs.append(ro.region_must_fail(fx, f, v, "R-ORDER", mkkey("R-ORDER", w, "no_clobber", k, "must-fail"),
+            obs.append(ro.region_must_fail(fx, f, v, "R-ORDER", mkkey("R-ORDER", host, "no_clobber", k, "must-fail"),
                                            "special file onto existing entry with no_clobber",
                                            loc=q.loc_of(f.blocks[u]["term"])))
     return obs
@@ -377,7 +409,7 @@ def backup_rename(fx):
         if not rn:
             continue
         cfg = cfg_of(f)
-        creates = [b for b, t in q.calls_to(f, {FILE_CREATE, "std::fs::OpenOptions::open"})]
+        creates = [b for b, t, h in ro.performers(fx, f, {FILE_CREATE, "std::fs::OpenOptions::open"})]
         for (bi, t) in rn:
             n += 1
             # (d) control-dependent on needs_backup
